@@ -374,6 +374,11 @@ func (e *Engine) Run() (err error) {
 			}
 			v := e.evalBool(st, env, c.E)
 			st.assume(v)
+			if strings.HasPrefix(c.Label, "pkginit-") {
+				// a fact about package-level variables that the package initializer establishes (proved as an
+				// ensures of the unit `init` of the same package); callers are not asked to re-establish it
+				e.noteAssumption(fmt.Sprintf("package-level variables keep the values the package initializer gave them (%s in %s: %s)", c.Label, e.oblPrefix(fn), c.Src))
+			}
 		}
 		for _, c := range u.C.Assumes {
 			v := e.evalBool(st, env, c.E)
